@@ -3,7 +3,7 @@
 set -e
 cd "$(dirname "$0")"
 export PYTHONPATH="$PWD:${MRPRO_REPO:-/repo}/src"
-/venv/bin/python -W ignore -c "from harness import extract_consts; extract_consts.main()" 2>&1 | grep -v conda || true
+/venv/bin/python -W ignore -c "from harness import extract_consts, translate_src; extract_consts.main(); translate_src.main()" 2>&1 | grep -v conda || true
 cd lean
 (find Mrpro -name '*.lean' | sort | sed 's|/|.|g; s|\.lean$||; s|^|import |') > Mrpro.lean
 lake build Mrpro driver 2>&1 | grep -v '^✔' | tail -40
